@@ -57,6 +57,24 @@ def check_latent(case):
     require(err <= 1e-6 * max(abs(expect), abs(float(h))) + 1e-9,
             "Clausius-Clapeyron: H(%r) = %r kJ/mol but R T^2 dlnPsat/dT = %r (%s constants a=%r b=%r c=%r)",
             t, float(h), expect, vp.type, vp.a, vp.b, vp.c)
+    # the same temperature stated with another numeric type (a whole number of kelvin as a Python int, a numpy integer, an
+    # integer array) is the same temperature
+    import numpy
+
+    ti = int(round(t))
+    for name in ("get_vaporisation_heat", "get_vapor_pressure"):
+        fn = getattr(comp, name)
+        ref = [float(fn(float(ti))), float(fn(float(ti + 1)))]
+        forms = (("int", ti, ref[0]), ("numpy.int64", numpy.int64(ti), ref[0]),
+                 ("integer array", numpy.array([ti, ti + 1]), ref), ("float array", numpy.array([float(ti), ti + 1.0]), ref))
+        for label, arg, expect_ in forms:
+            got = call(fn, arg)
+            require(not is_raised(got), "%s(%r as %s) raised %r", name, ti, label, got)
+            got_l = [float(v) for v in numpy.atleast_1d(got)]
+            exp_l = expect_ if isinstance(expect_, list) else [expect_]
+            tol_ = 1e-12
+            require(len(got_l) == len(exp_l) and all(abs(g - e) <= tol_ * max(abs(e), 1e-300) for g, e in zip(got_l, exp_l)),
+                    "%s(%r K given as %s) = %r, given as float %r (%s constants)", name, ti, label, got_l, exp_l, vp.type)
     return {"nontrivial": abs(float(h)) > 1.0, "classes": [vp.type, "builtin" if "builtin" in case["component"] else "random"],
             "target": {"cc_relerr": err / max(abs(expect), 1e-12)}}
 
